@@ -28,7 +28,7 @@ ASSUMPTIONS = [
 def run_case(case):
     r = Result()
     sch = case['schema']
-    text = L.render(sch, case.get('style', 0))
+    text = L.render(sch, case.get('style', 0), case.get('moves', ()))
     fns = G.user_fns()
     if chain_count(sch) > MAX_CHAINS:
         r.discarded = True
@@ -66,7 +66,11 @@ def run_case(case):
             k2 = key + [digest] if (i + 2 * j) % 7 == 0 and key else key
             for label, ck in (('direct', checker), ('loaded', loaded)):
                 try:
-                    got = bool(ck.check(p2, k2))
+                    if label == 'direct':
+                        # names are handed over in every legal form (list / tuple / one-shot iterator / generator / URI / wire)
+                        got = bool(ck.check(_rep(p2, i + 3 * j), _rep(k2, 2 * i + j)))
+                    else:
+                        got = bool(ck.check(p2, k2))
                 except Exception as e:
                     r.bad(f'C12/check-raised/{type(e).__name__}', f'{e!r} pkt={_show(p2)} key={_show(k2)} :: {text}')
                     break
@@ -102,13 +106,30 @@ def _shared_constrained(sch):
     return False
 
 
+def _rep(name, k):
+    k %= 7
+    if k <= 1:
+        return list(name)
+    if k == 2:
+        return tuple(name)
+    if k == 3:
+        return iter(list(name))
+    if k == 4:
+        return (c for c in list(name))
+    js = [[T.read_num(c, 0, len(c))[0], bytes(c[T.read_tlv(c, 0, len(c))[2]:]).hex()] for c in name]
+    from .. import pkt as P
+    return P.name_in_rep(js, 3 if k == 5 else 5)
+
+
 def _show(name):
     return '/' + '/'.join(bytes(c).hex() for c in name)
 
 
 def _case(mode='base'):
     return st.fixed_dictionaries({'schema': G.schema(signing_bias=True, max_rules=6, mode=mode), 'style': st.integers(0, 5),
-                                  'salt': st.integers(0, 96)})
+                                  'salt': st.integers(0, 96),
+                                  'moves': st.one_of(st.just([]), st.just([]),
+                                                     st.lists(st.tuples(st.integers(0, 7), st.integers(0, 7)).map(list), min_size=1, max_size=2))})
 
 
 SUBCHECKS = {
